@@ -164,7 +164,7 @@ class ActionsFamily:
         """two or three actions issued back to back WITHOUT waiting for quiescence: the work scheduled by the first
         (successor tasks still in the queue, messages not yet dispatched) is in flight when the next one arrives;
         deterministic on a current-thread runtime"""
-        if rng.random() < opts.get('tail', 0.25):
+        if rng.random() < opts.get('tail', 0.35):
             return self.gen_b2b_tail(rng, idx, opts)
         kind, wf = models(rng)
         ops = [{'op': 'start', 'mid': 'm1', 'vars': {'pid': 'p1'}}, {'op': 'quiesce'}]
@@ -194,31 +194,40 @@ class ActionsFamily:
                 inner['branches'].append({'id': 'b123', 'else': True, 'steps': [{'id': 's1231', 'acts': [irq('a8', 'k8')]}]})
             wf = {'id': 'm1', 'steps': [{'id': 's1', 'branches': [{'id': 'b1', 'if': 'true', 'steps': [{'id': 's11', 'acts': [irq('a1', 'k1')]}, inner]}, {'id': 'b2', 'if': 'true', 'steps': [{'id': 's21', 'acts': [irq('a3', 'k3')]}]}]},
                                         {'id': 's2', 'acts': [irq('a4', 'k4')]}]}
-            action = rng.choice(['abort', 'abort', 'back', 'skip', 'error', 'remove', 'next', 'cancel'])
+            action = rng.choice(['abort', 'abort', 'abort', 'abort', 'back', 'skip', 'error', 'remove', 'next', 'cancel'])
             options = {'to': rng.choice(['s1', 's21'])} if action == 'back' else options_for(rng, action, wf, 0.9)
             ops = [{'op': 'start', 'mid': 'm1', 'vars': {'pid': 'p1'}}, {'op': 'quiesce'},
                    {'op': 'act', 'target': {'pid': 'p1', 'key': 'k1', 'state': 'interrupted'}, 'action': rng.choice(['next', 'next', 'skip', 'submit']), 'options': {}},
-                   {'op': 'yield', 'n': rng.randint(0, 8)},
+                   {'op': 'yield', 'n': rng.randint(0, 5)},
                    {'op': 'act', 'target': {'pid': 'p1', 'key': 'k3', 'state': 'interrupted'}, 'action': action, 'options': options},
                    {'op': 'quiesce'}, {'op': 'snapshot', 'level': 'rows'}, {'op': 'run'}, {'op': 'snapshot', 'level': 'rows'}]
-            rt = rng.choice([{'flavor': 'current'}, {'flavor': 'current'}, {'flavor': 'current', 'chaos': {'max_yields': 2, 'seed': rng.randrange(1, 1 << 40)}}])
+            # seeded yields in the queue senders: the scheduler gets through a part of its work per turn
+            rt = {'flavor': 'current', 'chaos': {'max_yields': rng.choice([1, 2, 2, 3]), 'seed': rng.randrange(1, 1 << 40)}}
             sc = {'id': '', 'family': 'actions', 'sched': 'b2b-late-branches-' + rt['flavor'], 'seed': rng.randrange(1 << 30), 'runtime': rt, 'engine': {'store': 'mem', 'keep_processes': True},
                   'models': [json.dumps(wf)], 'responder': {'mode': 'quiescent', 'rules': [{'match': {'uses': IRQ}, 'action': 'next', 'times': 100}]}, 'ops': ops}
             return {'scenarios': [sc], 'meta': {'wf': wf, 'kind': 'branches', 'sub': 'b2b'}, 'digest': digest([wf, ops]), 'nontrivial': True}
         n = rng.randint(1, 3)
         wf = {'id': 'm1', 'steps': [{'id': 's1', 'acts': [irq(f'a{i}', f'k{i}') for i in range(1, n + 1)]}, {'id': 's2', 'acts': [irq('a4', 'k4')]}, {'id': 's3', 'acts': [{'id': 'a5', 'uses': MSG, 'key': 'm5'}]}]}
         ops = [{'op': 'start', 'mid': 'm1', 'vars': {'pid': 'p1'}}, {'op': 'quiesce'}]
-        pushed = rng.randint(0, 2)
+        pushed = rng.randint(1, 2)
         for j in range(pushed):
             ops += [{'op': 'act', 'target': {'pid': 'p1', 'kind': 'step', 'state': 'running', 'occ': 0}, 'action': 'push', 'options': {'uses': IRQ, 'key': f'kpush{j}', 'id': f'apush{j}'}}, {'op': 'quiesce'}]
         for i in range(1, n):
             ops += [{'op': 'act', 'target': {'pid': 'p1', 'key': f'k{i}', 'state': 'interrupted'}, 'action': rng.choice(['next', 'next', 'skip', 'submit']), 'options': {}}, {'op': 'quiesce'}]
-        ops.append({'op': 'act', 'target': {'pid': 'p1', 'key': f'k{n}', 'state': 'interrupted'}, 'action': rng.choice(['next', 'next', 'skip', 'submit', 'remove']), 'options': {}})
-        for _ in range(rng.randint(1, 2)):
-            if rng.random() < 0.4:
+        # the acts that are open now (the last declared one and the pushed ones) are closed back to back in any order
+        keys = [f'k{n}'] + [f'kpush{j}' for j in range(pushed)]
+        if rng.random() < 0.5:
+            keys = keys[1:] + keys[:1]          # the pushed acts first: closing them can complete the step
+        else:
+            rng.shuffle(keys)
+        for key in keys:
+            if key.startswith('kpush'):
+                action = rng.choice(['skip', 'skip', 'next', 'next', 'remove', 'submit', 'submit', 'error', 'abort', 'back', 'cancel'])
+            else:
+                action = rng.choice(['skip', 'skip', 'skip', 'skip', 'next', 'next', 'remove', 'submit', 'error', 'abort', 'back', 'cancel'])
+            ops.append({'op': 'act', 'target': {'pid': 'p1', 'key': key, 'state': 'interrupted'}, 'action': action, 'options': options_for(rng, action, wf, 0.9)})
+            if rng.random() < 0.3:
                 ops.append({'op': 'yield', 'n': rng.randint(1, 6)})
-            action = rng.choice(['skip', 'next', 'remove', 'submit', 'error', 'abort', 'back', 'cancel'])
-            ops.append({'op': 'act', 'target': {'pid': 'p1', 'kind': 'act', 'state': 'interrupted', 'occ': rng.choice([0, -1])}, 'action': action, 'options': options_for(rng, action, wf, 0.9)})
         ops += [{'op': 'quiesce'}, {'op': 'snapshot', 'level': 'rows'}, {'op': 'run'}, {'op': 'snapshot', 'level': 'rows'}]
         rt = rng.choice([{'flavor': 'current'}, {'flavor': 'current'}, {'flavor': 'multi', 'workers': 2, 'chaos': {'max_yields': 2, 'seed': rng.randrange(1, 1 << 40)}}])
         sc = {'id': '', 'family': 'actions', 'sched': 'b2b-tail-' + rt['flavor'], 'seed': rng.randrange(1 << 30), 'runtime': rt, 'engine': {'store': 'mem', 'keep_processes': True},
